@@ -150,6 +150,15 @@ Next == x' = x
             chk.violation(f'{kind}-{fn}-{cls}', f'{fn} shape={shape} box={box} offset={o}/4 cell {info} lattice positions={np.asarray(ms).tolist()[:4]} weights={list(ws)[:4]}: {bad}',
                           dict(fn=fn, kind=kind, shape=list(shape), box=box, ms=np.asarray(ms).tolist(), ws=list(map(float, ws)), o=o, info=info))
 
+    def supplied(pos, grid, box, **kw):
+        """tsc_parallel deposits into the grid the caller supplies: the supplied array itself is what is judged (the return value must agree with it)"""
+        ret = tsc_parallel(pos, grid, box, **kw)
+        if ret is not None and ret is not grid and (np.asarray(ret).shape != grid.shape or not np.array_equal(np.asarray(ret), grid)):
+            chk.violation('tsc_parallel-supplied-grid-not-updated', f'tsc_parallel with a supplied {grid.dtype} grid and {pos.dtype} positions ({kw}): the returned grid differs from the '
+                          f'supplied array (supplied total {float(grid.sum()):.6g}, returned total {float(np.asarray(ret).sum()):.6g}) — the deposit did not accumulate into the caller\'s grid',
+                          dict(shape=list(grid.shape), gdt=str(grid.dtype), pdt=str(pos.dtype)))
+        return grid
+
     def run_tsc_scatter(shape, box, ms, ws, o, pdt, gdt, base=None):
         pos = positions(ms, shape, box, pdt)
         grid = np.zeros(shape, dtype=gdt) if base is None else base.astype(gdt).copy()
@@ -184,7 +193,7 @@ Next == x' = x
                                 _tsc_scatter(pos, g, box, offset=off)
                                 compare('_tsc_scatter', kind, shape, box, [mm], [1.0], o, g)
                                 n1d = shape[ax]
-                                g2 = tsc_parallel(pos.copy(), np.zeros(shape, dtype=gdt), box, nthread=1 + (m % 3), coord=ax, offset=off, wrap=bool(m % 2))
+                                g2 = supplied(pos.copy(), np.zeros(shape, dtype=gdt), box, nthread=1 + (m % 3), coord=ax, offset=off, wrap=bool(m % 2))
                                 compare('tsc_parallel', kind, shape, box, [mm], [1.0], o, g2, info=f'nthread={1 + m % 3} coord={ax}')
                             else:
                                 g = np.zeros(shape, dtype=gdt)
@@ -222,7 +231,7 @@ Next == x' = x
                     n1d = shape[coord]
                     for nthread, nparts in ((1, None), (2, None), (4, None), (3, 2), (16, None), (2, max(2, 2 * (n1d // 6)))):
                         try:
-                            g2 = tsc_parallel(pos.copy(), base.copy(), box, weights=None if w is None else w.copy(), nthread=nthread, npartition=nparts,
+                            g2 = supplied(pos.copy(), base.copy(), box, weights=None if w is None else w.copy(), nthread=nthread, npartition=nparts,
                                               coord=coord, sort=bool((rep // 2) % 2), offset=off)
                         except ValueError:
                             continue
@@ -240,7 +249,7 @@ Next == x' = x
             pdt = [np.float64, np.float32][rep % 2]
             pos = positions(ms, shape, box, pdt)
             p0 = pos.copy()
-            g2 = tsc_parallel(pos, np.zeros(shape, dtype=np.float64), box, nthread=1 + rep % 4, wrap=True)
+            g2 = supplied(pos, np.zeros(shape, dtype=np.float64), box, nthread=1 + rep % 4, wrap=True)
             compare('tsc_parallel', 'TSC', shape, box, ms, np.ones(npart), 0, g2, info='wrap=True')
         chk.part('S3_wrap', runs=nrun[0])
         # ---- S4: get_field (cubic), TSC and CIC, with offset d; undo the overdensity normalisation
@@ -253,7 +262,7 @@ Next == x' = x
             o = int(rng.choice(OFFS))
             pos = positions(ms, shape, box, np.float32)
             d = o * (box / nmesh) / Q
-            f = get_field(pos.copy(), box, nmesh, kind, w=None, d=d, nthread=1 + rep % 3, dtype=[np.float32, np.float64][rep % 2])
+            f = get_field(pos.copy(), box, nmesh, kind, w=None, d=d, nthread=1 + rep % 3, dtype=[np.float32, np.float64][(rep // 2) % 2])
             dep = (f.astype(np.float64) + 1.0) * npart / f.size
             # the overdensity normalisation is a float operation: tolerance 1e-6, far below the smallest
             # possible kernel discrepancy on this lattice (2^-15)
